@@ -260,6 +260,8 @@ def graph_check(tier: str, stats: Stats) -> list[Violation]:
             ops.append(('touch', ('touch', cfg, None, 'v1')))
             ops.append(('untouch', ('touch', cfg, None, None)))
             ops.append(('diffbase', ('diffbase', cfg, None, {'spec': {'x': 1}})))
+            ops.append(('diffbase-empty', ('diffbase', cfg, None, {})))     # an object without spec/labels is a legal object
+            ops.append(('diffbase-odd', ('diffbase', cfg, None, {'spec': {'s': 'ü"\n', 'l': [], 'm': {}, 'z': 0, 'f': False}, 'metadata': {'labels': {}}})))
             ops.append(('foreign-store', ('store', foreign, 'h1', RECORDS[1])))
             ops.append(('foreign-purge', ('purge', foreign, 'h1', None)))
             ops.append(('foreign-diffbase', ('diffbase', foreign, None, {'spec': {'x': 9}})))
